@@ -46,6 +46,7 @@ type IC struct {
 	StrBound, MaxDepth, MaxSteps, MaxPaths int
 	mu                                     sync.Mutex
 	witness                                bool
+	kfSeen                                 map[string]bool
 	reached                                int
 	Samples                                []any
 	Viol                                   []Violation
@@ -158,6 +159,9 @@ func (env *Env) newWorld() *exec.World {
 	for k, v := range MockEnvStubs() {
 		w.Stubs[k] = v
 	}
+	for k, v := range RunGlobals() {
+		w.GlobalGen[k] = v
+	}
 	if err := env.Repo.RunInits(w); err != nil {
 		panic(err)
 	}
@@ -244,6 +248,7 @@ func (env *Env) RunHarness(hh *Harness) *HResult {
 				}()
 				st = in.Run(ic)
 				ic.collectViolated(st)
+				ic.settleKnown()
 			}()
 			mu.Lock()
 			defer mu.Unlock()
@@ -277,37 +282,66 @@ func (ic *IC) addViol(v Violation) {
 	ic.Viol = append(ic.Viol, v)
 }
 
-// collectViolated turns violated obligations into (replayed) violations.
+// faultWeight orders counterexamples: models with fewer injected faults are replayed first.
+func faultWeight(m map[string]string) int {
+	w := 0
+	for k, v := range m {
+		if strings.HasPrefix(k, "fault_") && v == "true" {
+			w += 2
+		}
+		if strings.HasPrefix(k, "outcome_") && v != "0" {
+			w++
+		}
+	}
+	return w
+}
+
+// collectViolated turns violated obligations into (replayed) violations: per distinct assertion,
+// counterexamples are replayed (simplest first) until one reproduces on the real build.
 func (ic *IC) collectViolated(st *exec.Stats) {
-	seen := map[string]bool{}
+	byLabel := map[string][]*exec.Obligation{}
+	var labels []string
 	for i := range st.Obligations {
 		ob := &st.Obligations[i]
-		if ob.Result != "violated" || ob.Handled {
+		if ob.Result != "violated" || ob.Handled || !labelConcerns(ob.Label, ic.Env.Prop) {
 			continue
 		}
-		if !labelConcerns(ob.Label, ic.Env.Prop) {
-			continue
+		if _, ok := byLabel[ob.Label]; !ok {
+			labels = append(labels, ob.Label)
 		}
-		if seen[ob.Label] && len(seen) > 0 {
-			continue // one replay per distinct assertion and instance
+		byLabel[ob.Label] = append(byLabel[ob.Label], ob)
+	}
+	for _, label := range labels {
+		cands := byLabel[label]
+		sort.SliceStable(cands, func(i, j int) bool { return faultWeight(cands[i].Model) < faultWeight(cands[j].Model) })
+		if len(cands) > 6 {
+			cands = cands[:6]
 		}
-		seen[ob.Label] = true
-		var v *Violation
-		if ic.H.Confirm != nil {
-			v = ic.H.Confirm(ic, ob)
-		}
-		if v == nil {
-			v = &Violation{Harness: ic.H.ID, Instance: ic.Name, Label: ob.Label, Model: ob.Model, Key: ic.H.ID + "/" + ic.Name + "/" + ob.Label,
-				Detail: "no replay generator for this assertion"}
-		}
-		if v.Property == "" {
-			v.Property = ic.Env.Prop
-			if ps := labelProps(ob.Label); len(ps) > 0 {
-				v.Property = ps[0]
-				v.Props = ps[1:]
+		var last *Violation
+		for _, ob := range cands {
+			var v *Violation
+			if ic.H.Confirm != nil {
+				v = ic.H.Confirm(ic, ob)
+			}
+			if v == nil {
+				v = &Violation{Harness: ic.H.ID, Instance: ic.Name, Label: ob.Label, Model: ob.Model, Key: ic.H.ID + "/" + ic.Name + "/" + ob.Label,
+					Detail: "no replay generator for this assertion"}
+			}
+			if v.Property == "" {
+				v.Property = ic.Env.Prop
+				if ps := labelProps(ob.Label); len(ps) > 0 {
+					v.Property = ps[0]
+					v.Props = ps[1:]
+				}
+			}
+			last = v
+			if v.Confirmed {
+				break
 			}
 		}
-		ic.addViol(*v)
+		if last != nil {
+			ic.addViol(*last)
+		}
 	}
 }
 
@@ -326,6 +360,53 @@ func (ic *IC) note(s string) {
 	ic.mu.Lock()
 	defer ic.mu.Unlock()
 	ic.Notes = append(ic.Notes, s)
+}
+
+// kfHit records that a path ran into an open known-finding class (instead of failing).
+func (ic *IC) kfHit(prop, class string) {
+	ic.mu.Lock()
+	defer ic.mu.Unlock()
+	if ic.kfSeen == nil {
+		ic.kfSeen = map[string]bool{}
+	}
+	ic.kfSeen[prop+"\x00"+class] = true
+}
+
+var witnessOnce sync.Map // class -> *witnessResult
+
+type witnessResult struct {
+	once   sync.Once
+	ok     bool
+	detail string
+}
+
+// settleKnown replays the recorded witness of every known-finding class hit by this instance.
+func (ic *IC) settleKnown() {
+	ic.mu.Lock()
+	var hits []string
+	for k := range ic.kfSeen {
+		hits = append(hits, k)
+	}
+	ic.mu.Unlock()
+	for _, k := range hits {
+		parts := strings.SplitN(k, "\x00", 2)
+		kf := ic.Env.KF.Open(parts[0], parts[1])
+		_ = parts[0]
+		if kf == nil {
+			continue
+		}
+		wr, _ := witnessOnce.LoadOrStore(k, &witnessResult{})
+		w := wr.(*witnessResult)
+		w.once.Do(func() { w.ok, w.detail = ic.Env.checkWitness(kf) })
+		if !kf.concerns(ic.Env.Prop) {
+			continue
+		}
+		if w.ok {
+			ic.known(kf.What)
+		} else {
+			ic.known(kf.What + " [symbolic model still fails; recorded CLI witness did not reproduce here: " + w.detail + "]")
+		}
+	}
 }
 
 func (ic *IC) known(s string) {
@@ -554,11 +635,24 @@ func prefixAll(p string, ss []string) []string {
 // ---- known findings ----
 
 type KnownFinding struct {
-	Property string `json:"property"`
-	Class    string `json:"class"`
-	Status   string `json:"status"` // open | fixed:<commit>
-	What     string `json:"what"`
-	Witness  any    `json:"witness,omitempty"`
+	Property string   `json:"property"`
+	Also     []string `json:"also,omitempty"` // further properties the same defect breaks
+	Class    string   `json:"class"`
+	Status   string   `json:"status"` // open | fixed:<commit>
+	What     string   `json:"what"`
+	Witness  any      `json:"witness,omitempty"`
+}
+
+func (k *KnownFinding) concerns(prop string) bool {
+	if k.Property == prop {
+		return true
+	}
+	for _, p := range k.Also {
+		if p == prop {
+			return true
+		}
+	}
+	return false
 }
 
 type KnownFindings struct {
@@ -572,18 +666,21 @@ func LoadKnown(path string) *KnownFindings {
 	if err != nil {
 		return kf
 	}
-	json.Unmarshal(b, kf)
+	if err := json.Unmarshal(b, kf); err != nil {
+		panic("known_findings.json: " + err.Error())
+	}
 	return kf
 }
 
-// Open reports whether a finding class is listed as open.
+// Open returns the open finding of the given class (whatever property is being checked: the class
+// is excluded from every harness run, but KNOWN-FINDING is only printed for the properties it concerns).
 func (k *KnownFindings) Open(prop, class string) *KnownFinding {
 	if k == nil {
 		return nil
 	}
 	for i := range k.Findings {
 		f := &k.Findings[i]
-		if f.Property == prop && f.Class == class && f.Status == "open" {
+		if f.Class == class && f.Status == "open" {
 			return f
 		}
 	}
